@@ -23,7 +23,7 @@ static void init(void) {
     /* --sel 1: only the special families (their own unit, so that they are never the part a deadline cuts off); --sel 2: only the strided catalogue; 0: both */
     int selMode = (int)vx_opt_int("--sel", 0);
     for (int i = 0; i < g_nrec; i++) {
-        int special = !strncmp(g_rec[i].name, "rawtail", 7) || !strncmp(g_rec[i].name, "legacy", 6) || !strncmp(g_rec[i].name, "hdr cks", 7) || !strncmp(g_rec[i].name, "compressor", 10);
+        int special = !strncmp(g_rec[i].name, "rawtail", 7) || !strncmp(g_rec[i].name, "legacy", 6) || !strncmp(g_rec[i].name, "hdr cks", 7) || !strncmp(g_rec[i].name, "compressor", 10) || strstr(g_rec[i].name, "rle blocks=") != NULL;
         int strided = (i % g_stride == 0) && !special;
         if ((special && selMode != 2) || (strided && selMode != 1)) g_sel[g_nsel++] = i;
     }
